@@ -485,6 +485,7 @@ class MetadorGroup(MetadorNode):
             self._guard_path(dest)
             dst_path = dest
         elif isinstance(dest, MetadorGroup):
+            self._guard_path(dst_name)
             dst_path = dest.name + f"/{dst_name}"
         else:
             raise ValueError("Copy dest must be path or Group!")
